@@ -14,6 +14,7 @@ import (
 	"os"
 	"runtime"
 	"runtime/debug"
+	"strings"
 	"sync"
 
 	"verifharness/internal/hx"
@@ -358,6 +359,21 @@ func main() {
 		if v := os.Getenv("C08_WORKERS"); v != "" {
 			fmt.Sscan(v, &workers)
 		}
+		// Scheduler variation: the number of OS threads running Go code is rotated every 2048 cases
+		// (thorough tier, which is also built with -race; or the list in C08_GOMAXPROCS), so that the
+		// races between read loop, write loop, subscription goroutines and closers are exercised
+		// with one, few and many processors.  What a case contains does not depend on it.
+		var procs []int
+		if v := os.Getenv("C08_GOMAXPROCS"); v != "" {
+			for _, w := range strings.Split(v, ",") {
+				var n int
+				if _, err := fmt.Sscan(w, &n); err == nil && n > 0 {
+					procs = append(procs, n)
+				}
+			}
+		} else if h.Thorough() {
+			procs = []int{runtime.GOMAXPROCS(0), 2, 1, 4}
+		}
 		// Conversations run in parallel; their case lines are handed to hx in index order as they
 		// become available (a window of at most a few hundred results is held in memory).
 		var mu sync.Mutex
@@ -375,6 +391,9 @@ func main() {
 					cond.Wait()
 				}
 				mu.Unlock()
+				if len(procs) > 0 && i%2048 == 0 {
+					runtime.GOMAXPROCS(procs[(i/2048)%len(procs)])
+				}
 				jobs <- i
 			}
 			close(jobs)
